@@ -35,9 +35,40 @@ def fit(d, method, normalize, ncomp):
     return f
 
 
+def full_rank_pairing(rep):
+    """Every component kept on rough, full-rank curves (the solver returns such spectra in no particular order): score column k
+    has the variance of the eigenvalue REPORTED in place k — whatever the order, the three lists (eigenvalues, eigenfunctions,
+    scores) go together."""
+    rng = np.random.default_rng([C.seed(), 3, 7])
+    for n, m in ((30, 12), (14, 9)):
+        x = np.linspace(0, 1, m)
+        X = np.round((np.sin(2 * np.pi * x)[None, :] * rng.normal(size=(n, 1)) + rng.normal(size=(n, m))) * 64) / 64
+        for method, how, dof in (("covariance", "NumInt", n - 1), ("inner-product", "InnPro", n)):
+            try:
+                f = fit(fd.dense(x, X), method, False, None)
+                with warnings.catch_warnings():
+                    warnings.simplefilter("ignore")
+                    S = np.asarray(f.transform(None, method=how), float)
+                lam = np.asarray(f.eigenvalues, float)
+            except Exception as e:  # noqa: BLE001
+                rep.notes.append(f"full-rank pairing monitor: UFPCA({method}) raised {type(e).__name__}"[:120])
+                continue
+            keep = np.isfinite(S).all(axis=0) & (lam > 1e-8 * float(np.max(lam)))
+            if S.shape != (n, len(lam)) or keep.sum() < 2:
+                continue
+            var = (S[:, keep] ** 2).sum(axis=0) / dof
+            rep.case(("full-rank-pairing", method, X.tobytes()), kind="pairing/full-rank")
+            dev = float(np.max(np.abs(var - lam[keep])))
+            if dev > 1e-6 * float(np.max(lam)):
+                rep.violation(f"UFPCA({method}, all components) on rough full-rank curves: the variance of score column k is not the "
+                              f"eigenvalue reported in place k (max deviation {dev:.3g}; eigenvalues {lam[keep][:5].tolist()}…, score "
+                              f"variances {var[:5].tolist()}…)", {"method": method, "x": C.hexf(x), "X": C.hexf(X)})
+
+
 def run(rep, props, replay=None):
     quick = C.tier() == "quick"
     rng = np.random.default_rng([C.seed(), 3])
+    full_rank_pairing(rep)
     runq = C.CoqRun("C03", IMPORTS, shard=10)
     todo = []
     kinds = ["uniform", "uniform-dyadic", "nonuniform", "doy", "shifted"]
